@@ -13,6 +13,8 @@ What is proved here, about the models of C19/Model.lean (the code after the two 
 * the directory watcher's name parser is total (`versionFromPath_total`; it was not: `versionFromPath_full_false`);
 * one scan computes exactly the newest supported version of every shard name with the mtimes of shard and sidecar
   (`scan_newest`, `C19_checkScan`), a second scan of an unchanged directory loads and drops nothing (`scan_quiescent`);
+  at loader level every scan re-establishes "loaded = newest files of the directory, with their current contents"
+  (`scan_resyncs`), hence after any history of directory states the loaded set equals the last one (`scan_converges`);
 * copy-on-write shard set, for every interleaving of replace (key by key, one atomic publish), search begin / end and
   finalizers (`CReach`): a search only ever works on a list that was published after a complete replace, with one
   version per key (`snapshot_consistent`); no searcher that the map, the published list or a running search still
@@ -20,7 +22,8 @@ What is proved here, about the models of C19/Model.lean (the code after the two 
   a replaced searcher that nothing refers to can be closed (`replaced_closable`).
 Data races and the run-time's finalizer / munmap behaviour are outside any model (run-time evidence: harness, -race).
 -/
-import ZoektModel.C19.Lemmas
+import ZoektModel.C19.Converge
+import ZoektModel.C19.VfpSpec
 namespace ZoektModel.C19
 open ZoektModel
 
@@ -42,6 +45,10 @@ theorem versionFromPath_full_false : ¬ ∀ path, ∃ r, versionFromPath false p
 theorem versionFromPath_fix_conservative (path : Bytes) (r : Bytes × Int)
     (h : versionFromPath false path = .ok r) : versionFromPath true path = .ok r := vfp_old_ok_eq path r h
 
+/-- **the executable statement about `versionFromPath` holds of the model**: for every byte string the result is
+    `(path, 0)` or the decomposition `<name>_<one byte><integer>.<rest>` with `name` ending at the last `_` -/
+theorem C19_checkVfp (path : Bytes) : checkVfp path (versionFromPath true path) = none := checkVfp_model path
+
 /-! ## scan -/
 
 /-- **one scan never fails and computes the newest set**: its new table is, in listing order, exactly the files that
@@ -49,8 +56,7 @@ theorem versionFromPath_fix_conservative (path : Bytes) (r : Bytes × Int)
     name — each with the mtimes of shard and sidecar. (`supported fv nv 0`: true for the real constants 16, 17.) -/
 theorem scan_newest (fv nv : Int) (h0 : supported fv nv 0 = true) (fs : List Ent) (old : Table Stamp) :
     ∃ o, scan true fv nv fs old = .ok o ∧ o.ts = newestSpec fv nv fs ∧
-      o.toLoad = ((newestSpec fv nv fs).filter fun (k, st) => old.get? k != some st).map (·.1) ∧
-      o.toDrop = (old.filter fun (k, _) => ((newestSpec fv nv fs).get? k).isNone).map (·.1) :=
+      o.toLoad = loadKeys (newestSpec fv nv fs) old ∧ o.toDrop = dropKeys (newestSpec fv nv fs) old :=
   ⟨_, scan_spec fv nv h0 fs old, rfl, rfl, rfl⟩
 
 theorem sameSet_refl {α} [BEq α] [LawfulBEq α] (l : List α) : sameSet l l = true := by
@@ -62,51 +68,6 @@ theorem C19_checkScan (fv nv : Int) (h0 : supported fv nv 0 = true) (fs : List E
   rw [scan_spec fv nv h0 fs old]
   simp [checkScan, sameSet_refl]
 
-/-- a key of a table built by `filterMap` over distinct file names finds its own entry -/
-theorem get?_self_of_nodup {β} : ∀ (t : Table β), (t.map (·.1)).Nodup → ∀ kv ∈ t, t.get? kv.1 = some kv.2 := by
-  intro t
-  induction t with
-  | nil => intro _ kv h; simp at h
-  | cons a r ih =>
-    intro hn kv hkv
-    simp only [List.map_cons, List.nodup_cons] at hn
-    rcases List.mem_cons.mp hkv with rfl | hmem
-    · simp [Table.get?]
-    · have hne : (a.1 == kv.1) = false := by
-        have : a.1 ≠ kv.1 := fun h => hn.1 (h ▸ List.mem_map.mpr ⟨kv, hmem, rfl⟩)
-        simpa using this
-      have := ih hn.2 kv hmem
-      simp only [Table.get?] at this ⊢
-      simp [List.find?_cons, hne, this]
-
-theorem newestSpec_keys_sublist (fv nv : Int) (fs : List Ent) :
-    ((newestSpec fv nv fs).map (·.1)).Sublist (fs.map (·.fn)) := by
-  rw [newestSpec_eq]
-  unfold newestOn
-  generalize fs = L at *
-  suffices ∀ l : List Ent, ((l.filterMap fun e => match e.mtime with
-      | none => none
-      | some mt => if isNewest fv nv L e then some (e.fn, (mt, e.side)) else none).map (·.1)).Sublist (l.map (·.fn)) from
-    this L
-  intro l
-  induction l with
-  | nil => simp
-  | cons e t ih =>
-    simp only [List.filterMap_cons, List.map_cons]
-    split
-    · exact List.Sublist.cons _ ih
-    · rename_i b hb
-      have hfn : b.1 = e.fn := by
-        cases hm : e.mtime with
-        | none => simp [hm] at hb
-        | some mt =>
-          simp only [hm] at hb
-          split at hb
-          · simp only [Option.some.injEq] at hb; rw [← hb]
-          · simp at hb
-      simp only [List.map_cons, hfn]
-      exact ih.cons₂ _
-
 /-- **quiescence**: scanning an unchanged directory again (distinct file names, as `Glob` returns them) asks the loader
     for nothing and leaves the table as it is -/
 theorem scan_quiescent (fv nv : Int) (h0 : supported fv nv 0 = true) (fs : List Ent) (old : Table Stamp)
@@ -115,15 +76,34 @@ theorem scan_quiescent (fv nv : Int) (h0 : supported fv nv 0 = true) (fs : List 
       o2.ts = o1.ts ∧ o2.toLoad = [] ∧ o2.toDrop = [] := by
   refine ⟨_, _, scan_spec fv nv h0 fs old, scan_spec fv nv h0 fs _, rfl, ?_, ?_⟩
   · have hn := (newestSpec_keys_sublist fv nv fs).nodup hnd
-    simp only [List.map_eq_nil_iff, List.filter_eq_nil_iff]
+    simp only [loadKeys, List.map_eq_nil_iff, List.filter_eq_nil_iff]
     intro kv hkv
     have := get?_self_of_nodup _ hn kv hkv
     simp [this]
   · have hn := (newestSpec_keys_sublist fv nv fs).nodup hnd
-    simp only [List.map_eq_nil_iff, List.filter_eq_nil_iff]
+    simp only [dropKeys, List.map_eq_nil_iff, List.filter_eq_nil_iff]
     intro kv hkv
     have := get?_self_of_nodup _ hn kv hkv
     simp [this]
+
+/-- **one scan re-establishes "loaded = directory"** (loader level; every load succeeds and reads the version that was
+    stat'ed): if the watcher mirrors the previously scanned state `D0` (`Synced`: its table is the newest set of `D0`, the
+    loaded searchers carry exactly those files' contents) and between `D0` and `D` mtimes identify versions (`Fresh`:
+    same name, same shard and sidecar mtimes ⇒ same content), then after scanning `D` it mirrors `D` -/
+theorem scan_resyncs (fv nv : Int) (h0 : supported fv nv 0 = true) (w : WState) (D0 D : Disk)
+    (hs : Synced fv nv w D0) (hn0 : NodupFn D0) (hn : NodupFn D) (hf : Fresh D0 D) :
+    Synced fv nv (scanStep fv nv w D) D := scanStep_synced fv nv h0 w D0 D hs hn0 hn hf
+
+/-- **convergence to disk**: for every history of scanned directory states (arbitrary creations, replacements,
+    deletions, sidecar updates and removals, format-version upgrades and downgrades between them — only distinct file
+    names per state and `Fresh` between consecutive states are assumed), starting with nothing loaded: after the last scan
+    the watcher's table is the newest set of the last state, and the loaded searchers are exactly its newest files with
+    their current contents and sidecars. In particular once the directory stops changing the loaded set equals it. -/
+theorem scan_converges (fv nv : Int) (h0 : supported fv nv 0 = true) (ds : List Disk) (hg : GoodHistory [] ds) :
+    let w := runScans fv nv ⟨[], []⟩ ds
+    let D := ([] :: ds).getLast (by simp)
+    w.ts = newestSpec fv nv (Disk.ents D) ∧ ∀ k, w.loaded.get? k = (newestC fv nv D).get? k :=
+  runScans_synced fv nv h0 ds ⟨[], []⟩ [] (synced_empty fv nv) (by simp [NodupFn]) hg
 
 /-- the single "latest mtime" the watcher kept before the second fix cannot see a sidecar that is removed while the
     shard is the newer file: different (shard, sidecar) states, same timestamp -/
@@ -220,6 +200,19 @@ example :
     loadOf (scan true 16 17 [⟨f, some 5, some 3⟩] []) = some [f] ∧
     loadOf (scan true 16 17 [⟨f, some 5, some 3⟩] [(f, (5, some 3))]) = some [] ∧
     loadOf (scan true 16 17 [⟨f, some 5, none⟩] [(f, (5, some 3))]) = some [f] := by decide
+
+/-- a history satisfying `GoodHistory`: a shard appears (content 10), gets a sidecar and new content (11), a newer
+    format version appears next to it (12), the sidecar of the old one is removed; after the scans only the v17 file is
+    loaded, with content 12 -/
+example :
+    let a : Bytes := [102, 95, 118, 49, 54, 46, 122]   -- "f_v16.z"
+    let b : Bytes := [102, 95, 118, 49, 55, 46, 122]   -- "f_v17.z"
+    let ds : List Disk := [[⟨⟨a, some 1, none⟩, 10⟩], [⟨⟨a, some 2, some 3⟩, 11⟩],
+      [⟨⟨a, some 2, some 3⟩, 11⟩, ⟨⟨b, some 4, none⟩, 12⟩], [⟨⟨a, some 2, none⟩, 11⟩, ⟨⟨b, some 4, none⟩, 12⟩]]
+    GoodHistory [] ds ∧ (runScans 16 17 ⟨[], []⟩ ds).loaded = [(b, 12)] ∧
+      (runScans 16 17 ⟨[], []⟩ (ds.take 2)).loaded = [(a, 11)] := by
+  refine ⟨?_, by decide, by decide⟩
+  simp [GoodHistory, NodupFn, Fresh, stampOf]
 
 /-- replace under a running search: the search keeps version 0 of key 7, the published list has version 1, version 0
     cannot be finalized until the search ends, and can afterwards -/
